@@ -588,10 +588,18 @@ def case_sgpr(ctx, idx, tier):
     torch.manual_seed(rng.torch_seed())
     d = rng.randint(1, 2)
     n, m, ns = rng.randint(5, 9), rng.randint(2, 4), rng.randint(2, 4)
-    X, Z, Xs = torch.rand(n, d), torch.rand(m, d) * 0.9 + 0.05, torch.rand(ns, d)
+    X, Xs = torch.rand(n, d), torch.rand(ns, d)
+    # well separated inducing points (keeps Kzz well conditioned: cond <= ~1e5)
+    if d == 1:
+        Z = torch.tensor([[(k + 0.5 + rng.uniform(-0.3, 0.3)) / m] for k in range(m)])
+    else:
+        while True:
+            Z = torch.rand(m, d) * 0.9 + 0.05
+            if torch.cdist(Z, Z).add(torch.eye(m) * 9).min().item() > 0.25:
+                break
     y = torch.sin(3 * X[:, 0]) + 0.2 * torch.randn(n)
     noise, cmean = 0.05 + 0.2 * rng.random(), rng.uniform(-0.5, 0.5)
-    oscale, ls = 0.8 + rng.random(), 0.4 + 0.5 * rng.random()
+    oscale, ls = 0.8 + rng.random(), 0.25 + 0.3 * rng.random()
     cell = ["chol", "cg", "fpv"][idx % 3]
 
     class SGPR(gpytorch.models.ExactGP):
@@ -633,6 +641,7 @@ def case_sgpr(ctx, idx, tier):
             kern_sx = mdl.covar_module(Xs, X).to_dense()
             Kd = mdl.base(X, X, diag=True)
             Kxz, Kzz = mdl.base(X, Z).to_dense(), mdl.base(Z, Z).to_dense()
+            Kzz = torch.triu(Kzz) + torch.triu(Kzz, 1).T   # bit-exact symmetry (the float matrix can be 1 ulp off)
             Ksz, Kss = mdl.base(Xs, Z).to_dense(), mdl.base(Xs, Xs).to_dense()
         obs[corr] = dict(objective=objective, pm=pm, pc=pc, cache=cache, kern_xx=kern_xx, kern_sx=kern_sx)
         r = y - cmean
@@ -652,8 +661,10 @@ def case_sgpr(ctx, idx, tier):
                 ctx.count("discarded_ill_conditioned")
                 continue
             ctx.notes["sgpr_max_root_residual"] = max(ctx.notes.get("sgpr_max_root_residual", 0.0), float(resid))
-            if float(resid) > 1e-6:
-                ctx.assumption(f"{tag}: ||R R^T - Kzz^-1||_inf = {float(resid):.2e} (Cholesky of Kzz inaccurate / jittered)")
+            if float(resid) > 1e-9:
+                ctx.count("sgpr_root_residual_discards")
+                if ctx.counters["sgpr_root_residual_discards"] <= 4:
+                    ctx.assumption(f"{tag}: ||R R^T - Kzz^-1|| / ||Kzz^-1|| = {float(resid):.2e} (Cholesky of Kzz inaccurate / jittered)")
                 continue
             mt_full = [[v[0] + Fraction(*float(cmean).as_integer_ratio())] for v in mt]
             mc_full = [[v[0] + Fraction(*float(cmean).as_integer_ratio())] for v in mc]
@@ -680,9 +691,9 @@ def case_sgpr(ctx, idx, tier):
                 ctx.count("sgpr_corr_on_cases")
                 ctx.notes["sgpr_corr_on_mean_shift_max"] = max(ctx.notes.get("sgpr_corr_on_mean_shift_max", 0.0), dm)
                 ctx.notes["sgpr_corr_on_cov_shift_max"] = max(ctx.notes.get("sgpr_corr_on_cov_shift_max", 0.0), dc)
+                if ok_m and ok_c:
+                    ctx.count("sgpr_corr_on_equals_fitc_conditional")
                 if dm > at + rt * sc:
-                    if ok_m and ok_c:
-                        ctx.count("sgpr_corr_on_equals_fitc_conditional")
                     rep.fail(KNOWN_SGPR_KEY, f"{tag}: posterior mean differs from the SGPR predictive mean Q*(Q+s2 I)^-1 r by {dm:.3e} "
                              f"(equals the dense conditional of Q + diag(K-Q) + s2 I: {ok_m})", ex)
             else:
@@ -978,10 +989,10 @@ def case_mtmodel(ctx, idx, tier):
     return Case("mtmodel", idx, desc, lines, check, sample={"family": "mtmodel", "desc": desc})
 
 
-FAMILIES = {
-    "kron": (case_kron, 8, 60), "index": (case_index, 6, 40), "lcm": (case_lcm, 5, 30), "grid": (case_grid, 6, 24),
-    "interp": (case_interp, 12, 60), "kisskernel": (case_kisskernel, 8, 24), "convergence": (case_convergence, 4, 4),
-    "sgpr": (case_sgpr, 6, 45), "rff": (case_rff, 8, 40), "kiss": (case_kiss, 10, 40), "mtmodel": (case_mtmodel, 9, 45),
+FAMILIES = {   # family: (case builder, #cases quick, #cases thorough)
+    "kron": (case_kron, 12, 300), "index": (case_index, 8, 200), "lcm": (case_lcm, 6, 150), "grid": (case_grid, 9, 90),
+    "interp": (case_interp, 18, 300), "kisskernel": (case_kisskernel, 12, 100), "convergence": (case_convergence, 4, 4),
+    "sgpr": (case_sgpr, 12, 240), "rff": (case_rff, 12, 200), "kiss": (case_kiss, 20, 200), "mtmodel": (case_mtmodel, 18, 252),
 }
 
 
